@@ -93,6 +93,9 @@ func (s *searcher) run(start []Event) {
 			before := append([]HO(nil), w2.ho...)
 			pt := w2.apply(e)
 			s.trans++
+			if s.trans%5000 == 0 {
+				s.c.Beat()
+			}
 			s.c.Add("transitions", 1)
 			s.c.Add("evaluations", 1)
 			s.onTrans(before, w2, nh, e, pt)
